@@ -33,6 +33,7 @@ type Summary struct {
 	Handled     int            `json:"oracle_handled"`
 	Unhandled   int            `json:"oracle_unhandled"`
 	StateChecks int            `json:"state_comparisons"`
+	Sweep       int            `json:"sweep_requests"`
 	Failures    []Failure      `json:"failures"`
 	Samples     []string       `json:"samples"`
 	Known       []string       `json:"known_finding_lines"`
@@ -186,10 +187,13 @@ func runC14(seed int64, n int, grams []*hx.CmdGrammar) {
 		return
 	}
 	defer srv.Stop()
-	g := &hx.WireGen{R: rand.New(rand.NewSource(seed)), Keys: []string{"k1", "k2", "k3"}, Hostile: true, NowSec: time.Now().Unix()}
+	g := &hx.WireGen{R: rand.New(rand.NewSource(seed)), Keys: []string{"k1", "k2", "k3"}, Hostile: true, NowSec: time.Now().Unix(), Lits: map[string][]string{}}
 	names := []string{"bogus", "multi", "exec", "discard", ""}
 	for _, cg := range grams {
 		names = append(names, cg.Name)
+		if len(cg.Lits) > 0 {
+			g.Lits[cg.Name] = cg.Lits
+		}
 	}
 	newConn := func() *hx.Client {
 		c, err := hx.Dial(srv.Addr)
@@ -673,26 +677,21 @@ func runC13(seed int64, n int, grams []*hx.CmdGrammar) {
 	defer c.Close()
 	g := &hx.WireGen{R: rand.New(rand.NewSource(seed)), Keys: []string{"k1", "k2", "k3", "k4"}, NowSec: time.Now().Unix()}
 	var hist [][]string
-	for i := 0; i < n && len(sum.Failures) == 0; i++ {
-		cg := grams[g.R.Intn(len(grams))]
-		malformed := 0.15
-		args := g.Vector(cg, malformed)
+	// one request: send, compare the reply with the oracle's, compare the stored content
+	one := func(i int, args []string) bool {
 		low := strings.ToLower(args[0])
-		if low == "multi" || low == "exec" || low == "discard" || low == "flushall" && g.R.Intn(4) != 0 || low == "flushdb" && g.R.Intn(4) != 0 {
-			continue
-		}
 		hist = append(hist, args)
 		if len(hist) > 60 {
 			hist = hist[len(hist)-60:]
 		}
 		if err := c.Send(toBytes(args)); err != nil {
 			fail("c13-send", err.Error(), hist)
-			break
+			return false
 		}
 		got, err := c.Recv(5 * time.Second)
 		if err != nil {
 			fail("c13-no-reply", "no well-formed reply to "+q(args)+": "+err.Error(), hist)
-			break
+			return false
 		}
 		note(args, got)
 		want, handled := hx.WireOracle(twin, toBytes(args))
@@ -707,12 +706,12 @@ func runC13(seed int64, n int, grams []*hx.CmdGrammar) {
 				if got.Kind == '$' && !got.Null {
 					_, _ = twin.Set().Delete(args[1], got.Str)
 				}
-				continue
+				return true
 			}
 			// otherwise run the same command through the server's own command
 			// layer (weaker: no independent oracle)
 			hx.ApplyThroughCommandLayer(twin, toBytes(args))
-			continue
+			return true
 		}
 		sum.Handled++
 		gc, wc := got.Canon(), want.Canon()
@@ -732,10 +731,10 @@ func runC13(seed int64, n int, grams []*hx.CmdGrammar) {
 		if gc != wc {
 			if kf := knownWireFinding(args); kf != "" {
 				knownHits[kf]++
-				continue
+				return true
 			}
 			fail("c13-reply", fmt.Sprintf("%s answered %s; the documented API call, Redis-typed, gives %s", q(args), got.Verbose(), want.Verbose()), hist)
-			break
+			return false
 		}
 		if i%3 == 0 || strings.HasPrefix(wc, "-") || n <= 5000 {
 			sum.StateChecks++
@@ -743,15 +742,98 @@ func runC13(seed int64, n int, grams []*hx.CmdGrammar) {
 			b, errB := hx.ContentOfDB(twin)
 			if errA != nil || errB != nil {
 				fail("harness", fmt.Sprintf("cannot read content: %v %v", errA, errB), hist)
-				break
+				return false
 			}
 			if same, why := hx.SameContent(a, b); !same {
 				fail("c13-state", fmt.Sprintf("after %s the server's database differs from the twin driven through the Go API (%s)\n server: %s\n twin  : %s", q(args), why, a.Text, b.Text), hist)
-				break
+				return false
 			}
 		}
 		if len(sum.Samples) < 6 && len(args) > 2 {
 			sum.Samples = append(sum.Samples, q(args)+" => "+got.Verbose())
+		}
+		return true
+	}
+	// (1) the option sweep: every command of the five data types and the key commands, without
+	// options, with each option alone and with each pair of options, on a key of its type that has
+	// a time-to-live and on a missing key
+	c13Sweep(g, grams, one)
+	// (2) random vectors
+	for i := 0; i < n && len(sum.Failures) == 0; i++ {
+		cg := grams[g.R.Intn(len(grams))]
+		malformed := 0.15
+		args := g.Vector(cg, malformed)
+		low := strings.ToLower(args[0])
+		if low == "multi" || low == "exec" || low == "discard" || low == "flushall" && g.R.Intn(4) != 0 || low == "flushdb" && g.R.Intn(4) != 0 {
+			continue
+		}
+		if !one(i, args) {
+			break
+		}
+	}
+}
+
+// the typed keys of the sweep and the commands that create them (each with a time-to-live)
+var sweepSetup = map[string][][]string{
+	"string": {{"DEL", "ks", "kn"}, {"SET", "ks", "10", "EX", "5000"}},
+	"hash":   {{"DEL", "kh", "kn"}, {"HSET", "kh", "f1", "1", "f2", "b", "f3", ""}, {"EXPIRE", "kh", "5000"}},
+	"list":   {{"DEL", "kl", "kn"}, {"RPUSH", "kl", "a", "b", "c", "a"}, {"EXPIRE", "kl", "5000"}},
+	"set":    {{"DEL", "ke", "kn"}, {"SADD", "ke", "a", "b", "c"}, {"EXPIRE", "ke", "5000"}},
+	"zset":   {{"DEL", "kz", "kn"}, {"ZADD", "kz", "1", "a", "2", "b", "3", "c"}, {"EXPIRE", "kz", "5000"}},
+}
+var sweepKey = map[string]string{"string": "ks", "hash": "kh", "list": "kl", "set": "ke", "zset": "kz"}
+
+func c13Sweep(g *hx.WireGen, grams []*hx.CmdGrammar, one func(i int, args []string) bool) {
+	saved := g.Keys
+	defer func() { g.Keys = saved }()
+	i := 0
+	run := func(args []string) bool {
+		i++
+		sum.Sweep++
+		return one(i, args)
+	}
+	for _, cg := range grams {
+		fam := cg.Parser
+		if k := strings.Index(fam, "."); k >= 0 {
+			fam = fam[:k]
+		}
+		fams := []string{fam}
+		if fam == "key" {
+			fams = []string{"string", "list", "zset"}
+		}
+		if _, ok := sweepSetup[fams[0]]; !ok || cg.Combs == nil {
+			continue
+		}
+		switch cg.Name {
+		case "flushdb", "flushall", "randomkey", "spop", "srandmember", "scan":
+			continue
+		}
+		opts := cg.Options()
+		variants := [][]hx.OptChoice{{}}
+		for _, a := range opts {
+			variants = append(variants, []hx.OptChoice{a})
+		}
+		for x := 0; x < len(opts); x++ {
+			for y := 0; y < len(opts); y++ {
+				if opts[x].Comb != opts[y].Comb && len(variants) < 40 {
+					variants = append(variants, []hx.OptChoice{opts[x], opts[y]})
+				}
+			}
+		}
+		for _, f := range fams {
+			for _, which := range variants {
+				for _, target := range []string{sweepKey[f], "kn"} {
+					for _, setup := range sweepSetup[f] {
+						if !run(setup) {
+							return
+						}
+					}
+					g.Keys = []string{target}
+					if !run(g.VectorOpts(cg, which)) {
+						return
+					}
+				}
+			}
 		}
 	}
 }
